@@ -119,7 +119,12 @@ type vfC03rateSUT struct {
 	n    int
 }
 
-func (s *vfC03rateSUT) open(a string, salt int) string {
+func (s *vfC03rateSUT) open(a string, salt int) (out string) {
+	defer func() {
+		if p := recover(); p != nil { // a panic under a valid call is an observable failure, not a harness problem
+			out = fmt.Sprintf("other: PANIC %v", p)
+		}
+	}()
 	ip := s.va.Addr[a]
 	if s.rm == nil {
 		// openConnection's guard: `if ip.IsValid()`
@@ -149,7 +154,12 @@ func (s *vfC03rateSUT) open(a string, salt int) string {
 	return "other: " + err.Error()
 }
 
-func (s *vfC03rateSUT) done(a string, twice bool) error {
+func (s *vfC03rateSUT) done(a string, twice bool) (err error) {
+	defer func() {
+		if p := recover(); p != nil {
+			err = fmt.Errorf("PANIC in Done: %v", p)
+		}
+	}()
 	l := s.live[a]
 	if len(l) == 0 {
 		return fmt.Errorf("no live connection of %s", a)
@@ -357,6 +367,11 @@ func vfC03rateConnWalk(cf *v.Conf, va *v.Variant, res *vfh.Result, file string, 
 			res.Case(fmt.Sprintf("%s|open|%s|%s|%d", cf.Inst, a, got, op.I("at")))
 		case "Done":
 			if err := sut.done(a, si%3 == 0); err != nil {
+				if strings.HasPrefix(err.Error(), "PANIC") {
+					run.mism("conn-limiter-panic", fmt.Sprintf("%s Done(%s): %v", tag, a, err), si, nil, err.Error())
+					res.Count(1, 1)
+					return nil
+				}
 				if modelSync {
 					return err
 				}
@@ -364,6 +379,14 @@ func vfC03rateConnWalk(cf *v.Conf, va *v.Variant, res *vfh.Result, file string, 
 			}
 			led.Release(a)
 			res.Case(fmt.Sprintf("%s|done|%s", cf.Inst, a))
+			// L4: a subnet entry that returns to zero is deleted (else the maps grow with every subnet ever seen)
+			if cst, _ := sut.project(); cf.FirstCNP(a) < 0 {
+				for _, b := range led.Buckets(a) {
+					if _, held := cst.Subc[b.Name]; held && led.Count(b) == 0 {
+						run.mism("conn-entry-not-dropped-at-zero", fmt.Sprintf("%s the last connection of subnet %s was released by Done(%s) and its map entry is still there (count %d)", tag, b.Name, a, cst.Subc[b.Name]), si, "deleted", cst.Subc[b.Name])
+					}
+				}
+			}
 		case "Bogus":
 			sut.cl.rmConn(va.Addr[a])
 			res.Case(fmt.Sprintf("%s|bogus|%s", cf.Inst, a))
@@ -536,7 +559,12 @@ func vfC03rateVSAWalk(cf *v.Conf, va *v.Variant, res *vfh.Result, file string, w
 			orc.Advance(va.Tick)
 		case "Allow":
 			na := vfC03rateNetAddr(va.Addr[a], wi+si)
-			got := !rm.VerifySourceAddress(na)
+			var got bool
+			if p := func() (p any) { defer func() { p = recover() }(); got = !rm.VerifySourceAddress(na); return nil }(); p != nil {
+				run.mism("rate-limiter-panic", fmt.Sprintf("%s VerifySourceAddress(%v) panics: %v", tag, na, p), si, nil, fmt.Sprint(p))
+				res.Count(1, 1)
+				return nil
+			}
 			fs := orc.Observe(a, got)
 			for _, f := range fs {
 				cls := f.Class
